@@ -9,7 +9,9 @@ use serde_json::Value;
 use std::collections::BTreeSet;
 use std::convert::TryFrom;
 
-pub const SAMPLES_DIR: &str = "/repo/biscuit-auth/samples";
+pub fn samples_dir() -> String {
+    format!("{}/biscuit-auth/samples", crate::common::repo_root())
+}
 
 pub struct BindReport {
     pub rsig_accepted: usize,
@@ -108,7 +110,7 @@ fn expected_decision(res: &Value) -> Result<Option<Decision>, String> {
 }
 
 pub fn bind() -> Result<BindReport, String> {
-    let data = std::fs::read_to_string(format!("{SAMPLES_DIR}/samples.json")).map_err(|e| e.to_string())?;
+    let data = std::fs::read_to_string(format!("{}/samples.json", samples_dir())).map_err(|e| e.to_string())?;
     let j: Value = serde_json::from_str(&data).map_err(|e| e.to_string())?;
     let root_pub = hex::decode(j["root_public_key"].as_str().unwrap()).unwrap();
     let mut rep = BindReport {
@@ -120,7 +122,7 @@ pub fn bind() -> Result<BindReport, String> {
     };
     for tc in j["testcases"].as_array().unwrap() {
         let name = tc["filename"].as_str().unwrap();
-        let bytes = std::fs::read(format!("{SAMPLES_DIR}/{name}")).map_err(|e| format!("{name}: {e}"))?;
+        let bytes = std::fs::read(format!("{}/{name}", samples_dir())).map_err(|e| format!("{name}: {e}"))?;
         let vals = tc["validations"].as_object().unwrap();
         let all_format_err = vals.values().all(|v| v["result"]["Err"].get("Format").is_some());
         // --- R-sig
